@@ -628,16 +628,63 @@ class Interp:
             return
         self.exec_block(st.body if self.decide(c) else st.orelse, frame)
 
+    def _reachable_objs(self, env):
+        out = {}
+        for v in env.values():
+            if isinstance(v, Obj) and id(v) not in out:
+                out[id(v)] = v
+                for w in v.attrs.values():
+                    if isinstance(w, Obj) and id(w) not in out:
+                        out[id(w)] = w
+        return list(out.values())
+
+    def _merge_seg(self, c, before, s1, s2, line):
+        """two branches appended to the same accumulator: families keep their guards; if each branch appended
+        exactly one family over the same loop variables they are merged into one family (item = ite)"""
+        nb = len(before.segs) if isinstance(before, Seg) else 0
+        if not (isinstance(s1, Seg) and isinstance(s2, Seg)) or s1.kind != s2.kind:
+            raise Unsupported('accumulator merged with non-accumulator')
+        new1, new2 = s1.segs[nb:], s2.segs[nb:]
+        out = s1.copy()
+        out.segs = list(s1.segs[:nb])
+        if len(new1) == 1 and len(new2) == 1 and isinstance(new1[0], Family) and isinstance(new2[0], Family) and \
+                [v.decl().name() for v in new1[0].vars] == [v.decl().name() for v in new2[0].vars]:
+            f1, f2 = new1[0], new2[0]
+            outer = z3.And(*[to_bool(g) for g in self.guards]) if self.guards else z3.BoolVal(True)
+            ldoms = []
+            for lc in self.loops:
+                ldoms += [lc.dom, z3.Not(lc.skip)]
+            dom = z3.And(outer, *ldoms) if ldoms else outer
+            i1, i2 = f1.item, f2.item
+            if isinstance(i1, Arr) and isinstance(i2, Arr):
+                item = Arr(i1.n, lambda i, a=i1.f, b_=i2.f: ite(c, a(i), b_(i)))
+            elif isinstance(i1, Mat) and isinstance(i2, Mat):
+                item = Mat(i1.nr, i1.nc, lambda r, cc, a=i1.f, b_=i2.f: ite(c, a(r, cc), b_(r, cc)))
+            elif isinstance(i1, str) and isinstance(i2, str) and len(i1) == 1 and len(i2) == 1:
+                item = FnStr(1, lambda i, a=i1, b_=i2: ite(c, a, b_))
+            else:
+                raise Unsupported('merge of appended items')
+            cnt = z3.Int(fresh_name('famcnt'))
+            out.segs.append(Family(f1.fid, f1.vars, dom, item, cnt))
+            return out
+        out.segs.extend(new1)
+        out.segs.extend(new2)
+        return out
+
     def if_convert(self, st, c, frame):
-        """Execute both branches under guards and merge the assigned names with ite."""
+        """Execute both branches under guards and merge what they assigned (names and object attributes)."""
         env = frame['env']
         before = dict(env)
+        objs = self._reachable_objs(env)
+        attrs_before = {id(o): dict(o.attrs) for o in objs}
         results = []
         lc = self.loops[-1] if self.loops else None
-        skip_before = lc.skip if lc else None
         for cond, body in ((c, st.body), (z3.Not(c), st.orelse)):
             env.clear()
             env.update(before)
+            for o in objs:
+                o.attrs.clear()
+                o.attrs.update(attrs_before[id(o)])
             self.guards.append(cond)
             skipped = False
             try:
@@ -651,28 +698,47 @@ class Interp:
                 skipped = True
             finally:
                 self.guards.pop()
-            results.append((cond, dict(env), skipped))
+            results.append((cond, dict(env), skipped, {id(o): dict(o.attrs) for o in objs}))
         env.clear()
         env.update(before)
-        (c1, e1, s1), (c2, e2, s2) = results
-        for nm in set(e1) | set(e2):
-            v1, v2 = e1.get(nm, _MISSING), e2.get(nm, _MISSING)
+        (c1, e1, s1, a1), (c2, e2, s2, a2) = results
+
+        def merge(v0, v1, v2):
             if v1 is v2:
-                env[nm] = v1
-                continue
+                return v1
             if s1 and not s2:
-                env[nm] = v2 if v2 is not _MISSING else before.get(nm, _MISSING)
-            elif s2 and not s1:
-                env[nm] = v1 if v1 is not _MISSING else before.get(nm, _MISSING)
-            elif v1 is _MISSING or v2 is _MISSING:
-                env[nm] = Havoc('defined on one branch only', st.lineno)
-            else:
+                return v2 if v2 is not _MISSING else v0
+            if s2 and not s1:
+                return v1 if v1 is not _MISSING else v0
+            if isinstance(v1, Seg) or isinstance(v2, Seg):
+                if v1 is _MISSING or v2 is _MISSING:
+                    return Havoc('accumulator defined on one branch only', st.lineno)
                 try:
-                    env[nm] = ite(c, v1, v2)
+                    return self._merge_seg(c, v0 if isinstance(v0, Seg) else Seg(v1.kind, []), v1, v2, st.lineno)
                 except Unsupported as e:
-                    env[nm] = Havoc('merge: ' + str(e), st.lineno)
-            if env[nm] is _MISSING:
-                del env[nm]
+                    return Havoc('merge: ' + str(e), st.lineno)
+            if v1 is _MISSING or v2 is _MISSING:
+                return Havoc('defined on one branch only', st.lineno)
+            try:
+                return ite(c, v1, v2)
+            except Unsupported as e:
+                return Havoc('merge: ' + str(e), st.lineno)
+        for nm in set(e1) | set(e2):
+            r = merge(before.get(nm, _MISSING), e1.get(nm, _MISSING), e2.get(nm, _MISSING))
+            if r is _MISSING:
+                env.pop(nm, None)
+            else:
+                env[nm] = r
+        for o in objs:
+            b0, x1, x2 = attrs_before[id(o)], a1[id(o)], a2[id(o)]
+            o.attrs.clear()
+            o.attrs.update(b0)
+            for k in set(x1) | set(x2):
+                r = merge(b0.get(k, _MISSING), x1.get(k, _MISSING), x2.get(k, _MISSING))
+                if r is _MISSING:
+                    o.attrs.pop(k, None)
+                else:
+                    o.attrs[k] = r
         if lc is not None and (s1 or s2):
             g = z3.And(*[to_bool(x) for x in self.guards]) if self.guards else z3.BoolVal(True)
             add = []
@@ -794,8 +860,6 @@ class Interp:
             if isinstance(o, Havoc):
                 return
             if isinstance(o, Obj):
-                if self.guards and o.has(t.attr):
-                    v = ite(z3.And(*[to_bool(g) for g in self.guards]), v, o.get(t.attr))
                 self.log_write(o, t.attr)
                 o.set(t.attr, v)
                 return
